@@ -15,7 +15,7 @@ cd /verif
 VERIF_SEED=$SEED VERIF_REPO=$WT VERIF_EVIDENCE=/tmp/sw-out-$TAG VERIF_REPLAYS=/tmp/sw-out-$TAG/replays \
   /venv/bin/python harness/run.py --property "$PROP" --tier "$TIER" > /tmp/sw-out-$TAG/log 2>/tmp/sw-out-$TAG/err
 RC=$?
-grep -E "^VIOLATION|^KNOWN|^\[" /tmp/sw-out-$TAG/log | cut -c1-400
+cat /tmp/sw-out-$TAG/log /tmp/sw-out-$TAG/err | grep -E "^VIOLATION|^KNOWN|^\[|^  [a-z0-9:_-]+: " | cut -c1-300
 [ $RC -ge 2 ] && echo "INFRA-FAILURE rc=$RC $(tail -2 /tmp/sw-out-$TAG/err | tr '\n' ' ' | cut -c1-300)"
 git -C /repo worktree remove --force "$WT"
 rm -rf /tmp/sw-out-$TAG
